@@ -379,6 +379,7 @@ func init() {
 		NotCovered:  []string{"unreachability of link()'s 'no decoration found' panics (positional)", "panics inside go/parser, go/printer"},
 	}, func(e *Env) {
 		e.RParseGuard()
+		e.RResolverFile()
 		e.RGuard("fragger", "decorate", "restore", "clone")
 		e.RAssert()
 		e.RCover("fragger", e.astNodeNames(), false)
@@ -391,4 +392,132 @@ func init() {
 		e.RIndex()
 		e.RErr(e.pkgs(load.PkgDecorator), 80)
 	})
+}
+
+// RResolverFile (R-NOPANIC): the *ast.File handed to the DecoratorResolver is the file of the
+// identifier, for a single file and for a package alike. fileDecorator.file is only set when a
+// single *ast.File is decorated; passing the raw field to ResolveIdent hands a nil file to the
+// resolver whenever a package is decorated (Decorator.ParseDir with a resolver), and the goast
+// resolver dereferences it: every package panics. Checked: (1) resolvePath does not pass the raw
+// field; (2) the helper it calls returns the field only under a nil check and otherwise searches
+// a list of files; (3) DecorateNode fills that list from the package's Files.
+func (e *Env) RResolverFile() {
+	pkg := e.Prog.Pkg(load.PkgDecorator)
+	info := pkg.TypesInfo
+	c := e.Sib.Ctx[load.PkgDecorator]
+	fd := load.FuncDecl(pkg, "fileDecorator", "resolvePath")
+	dn := load.FuncDecl(pkg, "Decorator", "DecorateNode")
+	if fd == nil || fd.Body == nil || dn == nil || dn.Body == nil {
+		e.Run.Violation("R-NOPANIC", "resolvePath and DecorateNode exist", "", "missing")
+		return
+	}
+	isFileField := func(x ast.Expr) bool {
+		se, ok := ast.Unparen(x).(*ast.SelectorExpr)
+		if !ok {
+			return false
+		}
+		v, ok := info.Uses[se.Sel].(*types.Var)
+		return ok && v.IsField() && v.Name() == "file" && v.Type().String() == "*go/ast.File"
+	}
+	var call *ast.CallExpr
+	ast.Inspect(fd.Body, func(n ast.Node) bool {
+		if cl, ok := n.(*ast.CallExpr); ok {
+			if fn := c.Callee(cl); fn != nil && fn.Name() == "ResolveIdent" && len(cl.Args) == 4 {
+				call = cl
+			}
+		}
+		return true
+	})
+	if call == nil {
+		e.Run.Violation("R-NOPANIC", "resolvePath calls the resolver", e.Prog.Pos(fd.Pos()), "no ResolveIdent call")
+		return
+	}
+	key := "resolvePath: the resolver is given the identifier's own file, also when a package is decorated"
+	arg := ast.Unparen(call.Args[0])
+	if isFileField(arg) {
+		e.Run.Violation("R-NOPANIC", key, e.Prog.Pos(call.Pos()),
+			"the raw field "+c.ExprStr(arg)+" is passed; it is only set when a single *ast.File is decorated, so Decorator.ParseDir / DecorateNode(*ast.Package) with a resolver hands nil to ResolveIdent (goast dereferences it: nil pointer panic for every package)")
+		return
+	}
+	hc, ok := arg.(*ast.CallExpr)
+	var helper *ast.FuncDecl
+	if ok {
+		if fn := c.Callee(hc); fn != nil {
+			for _, d := range load.AllFuncDecls(pkg) {
+				if info.Defs[d.Name] == types.Object(fn) {
+					helper = d
+				}
+			}
+		}
+	}
+	if helper == nil || helper.Body == nil {
+		e.Run.Undecided("R-NOPANIC", key, e.Prog.Pos(call.Pos()), "file argument `"+c.ExprStr(arg)+"` is neither the file field nor a same-package helper")
+		return
+	}
+	// (2) returns of the helper: the field only under `field != nil`; some return yields an element of a []*ast.File field
+	rets, okr := returnsOf(c, helper)
+	guardedField, listField := true, ""
+	sawField := false
+	if okr {
+		for _, r := range rets {
+			if len(r.results) != 1 {
+				continue
+			}
+			if strings.HasSuffix(r.results[0], ".file") {
+				sawField = true
+				if imp, dec := unsatWith(r.cond, r.results[0]+" == nil"); !dec || !imp {
+					guardedField = false
+				}
+			}
+		}
+	}
+	ast.Inspect(helper.Body, func(n ast.Node) bool {
+		rs, ok := n.(*ast.RangeStmt)
+		if !ok {
+			return true
+		}
+		if se, ok := ast.Unparen(rs.X).(*ast.SelectorExpr); ok {
+			if v, ok := info.Uses[se.Sel].(*types.Var); ok && v.IsField() && v.Type().String() == "[]*go/ast.File" {
+				// the loop returns its element
+				vid, _ := rs.Value.(*ast.Ident)
+				ast.Inspect(rs.Body, func(m ast.Node) bool {
+					if r, ok := m.(*ast.ReturnStmt); ok && len(r.Results) == 1 && vid != nil {
+						if id, ok := r.Results[0].(*ast.Ident); ok && info.Uses[id] == info.Defs[vid] {
+							listField = v.Name()
+						}
+					}
+					return true
+				})
+			}
+		}
+		return true
+	})
+	e.Run.Check("R-NOPANIC", key, e.Prog.Pos(call.Pos()), okr && sawField && guardedField && listField != "",
+		fmt.Sprintf("helper %s: returns the file field only under a nil check: %v; falls back to a search among a list of files: %v", helper.Name.Name, sawField && guardedField, listField != ""))
+	// (3) DecorateNode fills the list from the package's files
+	filled := false
+	ast.Inspect(dn.Body, func(n ast.Node) bool {
+		rs, ok := n.(*ast.RangeStmt)
+		if !ok {
+			return true
+		}
+		se, ok := ast.Unparen(rs.X).(*ast.SelectorExpr)
+		if !ok || se.Sel.Name != "Files" {
+			return true
+		}
+		if p, nme := namedOf(info.TypeOf(se.X)); p != "go/ast" || nme != "Package" {
+			return true
+		}
+		ast.Inspect(rs.Body, func(m ast.Node) bool {
+			if as, ok := m.(*ast.AssignStmt); ok && len(as.Lhs) == 1 {
+				if l, ok := as.Lhs[0].(*ast.SelectorExpr); ok && l.Sel.Name == listField && listField != "" {
+					filled = true
+				}
+			}
+			return true
+		})
+		return true
+	})
+	e.Run.Check("R-NOPANIC", "DecorateNode records the files of a package for identifier resolution", e.Prog.Pos(dn.Pos()), filled,
+		"no loop over the *ast.Package's Files that fills fileDecorator."+listField+": with a package the resolver would get no file")
 }
